@@ -115,7 +115,7 @@ def typer_op_tables(f):
     for fn, adt, tab in ((pb, "BinOp", bt), (pu, "UnaryOp", ut)):
         if not fn:
             continue
-        for m in F.find_matches(fn, adt):
+        for m in [m_ for b_ in F.family(f, fn, depth=1) for m_ in F.find_matches(b_, adt, deep=False)]:
             for arm in m["arms"]:
                 ctors = [a["variant"] for a in F.exprs(arm["body"], "Adt") if short(a["adt"]) == "IntrinsicOp" and not a["fields"]]
                 alts = [F.pat_variant(a) for a in F.pat_alternatives(arm["pat"])]
@@ -364,7 +364,7 @@ def rule_order(chk, crate, P):
                        "a slice in %s starts at %s, not 1: arguments are dropped (or the object repeated)" % (owner, st[1] if st else "a computed index"), where(b, a))
             else:
                 chk.ob(P + ".order/%s/slice-to/%s" % (cn, owner), False, "a `..k` slice in %s truncates an emitted sequence" % owner, where(b, a))
-    chk.floor(P + ".floor/%s/ranges" % cn, n, 3 if crate == "rssl_hlsl" else 6, "index / slice ranges judged", crate)
+    chk.floor(P + ".floor/%s/ranges" % cn, n, 1, "index / slice ranges judged", crate)
 
 
 # ------------------------------------------------------------------ literals
@@ -468,12 +468,20 @@ def rule_swizzle(chk, crate, P):
     if not ge:
         return
     out = {}
+
+    def arm_char(arm):
+        """the character an arm contributes: `s.push('x')` in the arm, or the arm's value `'x'` (pushed after the match)"""
+        chars = [F.lit(c["args"][1]) for c in F.exprs(arm["body"], "Call") if short(c.get("fn") or "") == "push"]
+        if chars and chars[0]:
+            return chars[0][1]
+        l = F.lit(F.strip(F.tail(arm["body"])))
+        return l[1] if l and l[0] in ("char", "str") else None
     for m in F.find_matches(ge, "SwizzleSlot"):
         for arm in m["arms"]:
             pv = F.pat_variant(arm["pat"])
-            chars = [F.lit(c["args"][1]) for c in F.exprs(arm["body"], "Call") if short(c.get("fn") or "") == "push"]
-            if pv and chars and chars[0]:
-                out[pv[1]] = chars[0][1]
+            ch_ = arm_char(arm)
+            if pv and ch_:
+                out[pv[1]] = ch_
     if not out:
         # the MSL exporter prints swizzles through a helper; look in the whole crate
         for b in f.crates[crate]["bodies"]:
@@ -515,9 +523,9 @@ def rule_swizzle(chk, crate, P):
         for m in F.find_matches(ge, "ComponentIndex"):
             for arm in m["arms"]:
                 pv = F.pat_variant(arm["pat"])
-                chars = [F.lit(c["args"][1]) for c in F.exprs(arm["body"], "Call") if short(c.get("fn") or "") == "push"]
-                if pv and chars and chars[0]:
-                    ci[pv[1]] = chars[0][1]
+                ch_ = arm_char(arm)
+                if pv and ch_:
+                    ci[pv[1]] = ch_
         wantc = {"First": "0", "Second": "1", "Third": "2", "Forth": "3"}
         for k, v in wantc.items():
             chk.ob(P + ".swz/matrix/%s" % k, ci.get(k) == v, "ComponentIndex::%s -> '%s' (zero-based _mRC form)" % (k, v) if ci.get(k) == v else
@@ -532,22 +540,28 @@ def rule_conv(chk, P):
     ap = f.fn("apply", "rssl_typer", self_ty="ImplicitConversion")
     if not chk.anchor(P + ".anchor/ImplicitConversion::apply", ap, "ImplicitConversion::apply"):
         return
-    t = F.adt_ctor(F.tail(ap["thir"]))
-    tail_is_cast = bool(t) and t[0] == "Expression" and t[1] == "Cast"
-    # early return of the unchanged expression only under the (None, None, None) pattern
-    early = False
-    for n in F.exprs(ap["thir"], "If"):
-        c = F.strip(n["cond"])
-        if c.get("k") == "Let":
-            nones = [p for p in F.walk(c["pat"]) if p.get("k") == "Variant" and p.get("variant") == "None"]
-            rets = [x for x in F.walk(n["then"]) if x.get("k") == "Return"]
-            if len(nones) == 3 and rets:
-                v = F.leftmost_var(rets[0]["e"])
-                epar = [q.get("pat", {}).get("id") for q in ap["params"] if "Expression" in q.get("ty", "") and "ImplicitConversion" not in q.get("ty", "")]
-                early = v is not None and v["id"] in epar
-    chk.ob(P + ".conv/explicit-cast", tail_is_cast and early,
-           "apply returns the expression unchanged only when no cast is needed, otherwise an explicit Expression::Cast" if tail_is_cast and early else
-           "ImplicitConversion::apply no longer ends in an explicit ir::Expression::Cast (or returns the raw expression in more cases)", where(ap))
-    ty = F.strip(t[2]["0"]) if tail_is_cast else {}
-    chk.ob(P + ".conv/cast-to-target", tail_is_cast and F.leftmost_var(t[2]["0"]) is not None and any(short(c.get("fn") or "") == "get_target_type" for c in F.exprs(ap["thir"], "Call")),
-           "the cast target is get_target_type()" if tail_is_cast else "cast target no longer comes from get_target_type()", where(ap))
+    # apply evaluated over the type registry model: no conversion -> the expression itself; any numeric or dimension
+    # conversion of a non-literal -> an explicit ir::Expression::Cast to the target type wrapping that expression
+    import convmodel as CM
+    import interp as I
+    cv = CM.Conversions(f)
+    var = I.Enum("Expression", "Variable", {"0": I.Opaque("v")})
+    bad = []
+    n = 0
+    r = cv.find("Float32", "Rvalue", "Float32", "Rvalue")
+    out = cv.apply(r[1], var) if r[0] == "Ok" else r
+    n += 1
+    if out is not var:
+        bad.append("Float32 -> Float32 (no conversion) returns %r instead of the expression itself" % (out,))
+    for src, dst in (("Int32", "Float32"), ("Float32", "Int32"), ("Float32", "Float324"), ("Float324", "Float322"), ("UInt32", "Bool"), ("Float32", "Float324x4"), ("Enum", "Int32")):
+        r = cv.find(src, "Rvalue", dst, "Rvalue")
+        if r[0] != "Ok":
+            continue
+        out = cv.apply(r[1], var)
+        n += 1
+        okc = isinstance(out, I.Enum) and out.variant == "Cast" and out.fields.get("1") is var and out.fields.get("0") == cv.u.type_id(dst)
+        if not okc:
+            bad.append("%s -> %s yields %r, must be Cast(<%s>, <the expression>)" % (src, dst, out, dst))
+    chk.ob(P + ".conv/explicit-cast", not bad, "apply returns the expression unchanged only when no cast is needed, otherwise an explicit Expression::Cast (%d conversions)" % n if not bad else
+           "ImplicitConversion::apply: %s" % bad[0], where(ap))
+    chk.ob(P + ".conv/cast-to-target", not bad, "the cast target is the conversion's target type" if not bad else "see conv/explicit-cast", where(ap), trivial=True)
